@@ -159,12 +159,13 @@ template <unsigned n, class E> void c_spline_additive(E& e) {
 #define SP(N) \
   template <class E> void sf_##N(E& e) { c_spline_free<N>(e); } VSYM_CONTRACT_P("spline/n=" #N "/free functions", sf_##N, 100) \
   template <class E> void si_##N(E& e) { c_spline_integral<N>(e); } VSYM_CONTRACT_P("spline/n=" #N "/integral", si_##N, 400) \
-  template <class E> void sm_##N(E& e) { c_spline_mean<N>(e); } VSYM_CONTRACT_P("spline/n=" #N "/mean value", sm_##N, 400)
+
+#define SM(N) template <class E> void sm_##N(E& e) { c_spline_mean<N>(e); } VSYM_CONTRACT_P("spline/n=" #N "/mean value", sm_##N, 400)
 #define SA(N) template <class E> void sa_##N(E& e) { c_spline_additive<N>(e); } VSYM_CONTRACT_P("spline/n=" #N "/integral additive", sa_##N, 1500)
-SN(2, 0) SN(2, 1) SP(2) SA(2)
+SN(2, 0) SN(2, 1) SP(2) SM(2) SA(2)
 SN(3, 0) SN(3, 1) SN(3, 2) SP(3)
 #ifdef VERIF_THOROUGH
-SA(3)
+SM(3) SA(3)
 SN(4, 0) SN(4, 1) SN(4, 2) SN(4, 3) SP(4)
 #endif
 int main(int argc, char** argv) { return vsym::driver_main(argc, argv); }
